@@ -182,7 +182,83 @@ def lits_of(body, block, facts):
             u = Lit("variant", lits[0].term, None, set().union(*[l.variants for l in lits]), sb, lits[0].raw, None, lits[0].adt)
             u.edge = (sb, via[0][0], via[0][1], via[0][2])
             out.append(u)
+    # filtered iteration: `for x in it.filter(|x| p(x))` - what the predicate guarantees on its true result holds for
+    # the element in the loop body (the closure's parameter is replaced by the loop's next() term, captures by their values)
+    for l0 in list(out):
+        if l0.kind == "variant" and l0.variants == {"Some"}:
+            pt = _strip_var(l0.term)
+            if pt[0] == "call" and callee_name(pt) == "next":
+                for x in walk(pt):
+                    if x[0] == "call" and callee_name(x) == "filter" and len(x[2]) >= 2:
+                        c_ = x[2][1]
+                        hops = 0
+                        while hops < 20 and c_[0] in ("ref", "deref", "cast", "var"):
+                            hops += 1
+                            c_ = c_[3] if c_[0] == "var" else c_[1]
+                        if c_[0] == "closure":
+                            out.extend(_filter_lits(c_, pt, facts))
     body._cache[key] = out
+    return out
+
+
+def closure_result_lits(cb, facts, want=True):
+    """literals (in the closure's own terms) that hold whenever the bool-returning closure `cb` yields `want`; [] if the
+    closure's result cannot be attributed to constant / call sites"""
+    from .defuse import fmt
+    du = du_of(cb)
+
+    def value_sites(local, neg, depth=0):
+        res = []
+        for d in du.full_defs(local):
+            if d.kind == "call":
+                res.append((d.block, None, (du.call_term(d.term, d.block, 14), neg)))
+                continue
+            rv = d.rv
+            ops = rv.operands()
+            if rv.kind == "use" and ops and ops[0].is_const() and "bool" in ops[0].j:
+                res.append((d.block, bool(ops[0].j["bool"]) != neg, None))
+            elif rv.kind in ("use", "unop") and ops and ops[0].place is not None and not ops[0].place.proj and depth < 6 and \
+                    (rv.kind == "use" or rv.j.get("op") == "Not"):
+                res += value_sites(ops[0].place.local, neg != (rv.kind == "unop"), depth + 1)
+            else:
+                res.append((d.block, None, None))
+        return res
+    per_site = []
+    for (blk, cval, callinfo) in value_sites(0, False):
+        if cval is not None and cval != want:
+            continue
+        ls = list(lits_of(cb, blk, facts))
+        if cval is None:
+            if callinfo is None:
+                return []
+            ct, neg = callinfo
+            ls.append(Lit("call", ct, truth=(want != neg), block=blk))
+        per_site.append(ls)
+    if not per_site:
+        return []
+
+    def key(l):
+        return (l.kind, callee_name(l.term) if l.kind == "call" else fmt(l.term, 3), l.truth, tuple(sorted(l.variants or [])))
+    common = per_site[0]
+    for ls in per_site[1:]:
+        ks = {key(l) for l in ls}
+        common = [l for l in common if key(l) in ks]
+    return common
+
+
+def _filter_lits(closure_term, next_term, facts):
+    from .defuse import subst
+    cb = facts.body(closure_term[1])
+    if cb is None or cb.local_ty(0) != "bool":
+        return []
+    mapping = {2: next_term}
+    for i, cap in enumerate(closure_term[2] or []):
+        mapping[("upvar", i)] = cap
+    out = []
+    for l in closure_result_lits(cb, facts, True):
+        n = Lit(l.kind, subst(l.term, mapping), l.truth, l.variants, l.block, l.raw, l.value, l.adt)
+        n.edge = None
+        out.append(n)
     return out
 
 
